@@ -42,7 +42,7 @@ class RoundTrip(Harness):
             cols = {"a": mk_col("i", n, "a"), "f": mk_col("f", n, "f"), "s": mk_col("T", n, "s")}
             if dict((k, v) for k, v in w).get("encoding") == "latin-1":
                 for c in cols["s"].cells:
-                    for ch in c.ch: ctx.assume(z3.ULE(ch, 0xFF), note="data representable in the chosen encoding (latin-1: code points <= U+00FF)")
+                    for ch in list(c.ch) + [c.sfx]: ctx.assume(z3.ULE(ch, 0xFF), note="data representable in the chosen encoding (latin-1: code points <= U+00FF)")
                 c0 = cols["s"].cells[0]
                 ctx.assume(z3.And(z3.UGE(c0.n, 1), z3.UGE(c0.ch[0], 0x80)), note="latin-1 paths: the first string starts with a non-ASCII character, so that the encoding matters")
             if self.fmt == "json":
